@@ -19,6 +19,64 @@ def expected_content(shape, rel, sizes):
     return ABuf.file(cr.fid_of(shape, rel), sizes[rel])
 
 
+TNAMES = [None, "100% done", "My%20Album", "%s", "{name}", "a[1]*", "name.torrent", " lead and trail ", "é 中", "..hidden"]
+# which file is damaged how ("-" = nothing damaged)
+DAMAGE = ["-", "last:flip", "first:trunc", "first:missing", "last:missing", "last:trunc", "first:flip"]
+MDIMS = {
+    "version": [1, 2, 3],
+    "shape": ["single", "flat2", "nested3", "selfname", "selfdir", "order2", "ungrouped3", "samedir2"] +
+             sorted(k for k in SHAPES if "~" in k and k.split("~")[0] in ("flat2", "nested3")),
+    "cpath": ["root", "parent"],
+    "tname": TNAMES,
+    "source": ["ref", "own", "own-class"],
+    "P": [16384, 32768],
+}
+
+
+def matrix_rows(tier, prop, per_run=8):
+    """Pairwise covering rows over the recheck configuration dimensions (see harness/matrix.py), as job_recheck
+    parameter dictionaries.  C05 gets intact content, C04/C16 one damaged file per row."""
+    import os as _os
+    from harness import matrix
+    dims = dict(MDIMS)
+    dims["damage"] = ["-"] if prop == "C05" else (DAMAGE[1:] if prop == "C04" else DAMAGE)
+
+    def ok(row):
+        if row["tname"] is not None and row["source"] != "ref":
+            return False
+        if row["shape"] == "ungrouped3" and (row["version"] != 1 or row["source"] != "ref"):
+            return False
+        if row["shape"] == "single" and "missing" in row["damage"]:
+            return False
+        return True
+    key = (prop,)
+    if key not in _MROWS:
+        _MROWS[key] = matrix.pairwise(dims, ok)
+    rows = _MROWS[key]
+    if tier != "thorough":
+        seed = int(_os.environ.get("VERIF_SEED", "0") or 0)
+        n = len(rows)
+        idx = sorted({(seed * per_run * 7 + i * (n // per_run + 1)) % n for i in range(per_run)})
+        rows = [rows[i] for i in idx]
+    out = []
+    for i, row in enumerate(rows):
+        n = len(SHAPES[row["shape"]])
+        dmg = ["intact"] * n
+        if row["damage"] != "-":
+            where, kind = row["damage"].split(":")
+            dmg[0 if where == "first" else n - 1] = kind
+        label = "matrix.v%d.%s.%s.%s.%s.P%d.%s" % (row["version"], row["shape"], row["cpath"], row["source"],
+                                                  "t%d" % TNAMES.index(row["tname"]), row["P"], row["damage"].replace(":", "-"))
+        params = dict(prop=prop, version=row["version"], shape=row["shape"], P=row["P"], K=1, dmg=dmg, source=row["source"], cpath=row["cpath"])
+        if row["tname"] is not None:
+            params["tname"] = row["tname"]
+        out.append((label, "job_recheck", params))
+    return out
+
+
+_MROWS = {}
+
+
 def v1_order(shape):
     if shape == "ungrouped3":
         return list(SHAPES[shape])      # as listed: legal, but not grouped by directory (other tools write such lists)
